@@ -221,8 +221,26 @@ func entries() []entry {
 				return probe.Tree(parser.NewParser().ParseFromModelTokens(probe.MustTokenize(sql)))
 			},
 		},
+		{
+			// a parser its holder configured: what the holder configured is not per-call state, a cancelled call leaves it alone
+			name:   "Parser.ParseContext(strict,mysql)",
+			applic: tokenizes,
+			run: func(ctx context.Context, sql string) (string, error, bool, func(int) (string, string, string), int) {
+				toks := probe.MustTokenize(sql)
+				p := cfgStrictMySQL.New()
+				t, err := p.ParseContextFromModelTokens(ctx, toks)
+				return probe.Tree(t, err), err, t != nil, func(i int) (string, string, string) {
+					return pprobes[i].Name, pprobes[i].Run(p), probe.PWant(cfgStrictMySQL, pprobes[i])
+				}, len(pprobes)
+			},
+			plain: func(sql string) string {
+				return probe.Tree(cfgStrictMySQL.New().ParseFromModelTokens(probe.MustTokenize(sql)))
+			},
+		},
 	}
 }
+
+var cfgStrictMySQL = probe.PCfg{Strict: true, Dialect: "mysql"}
 
 // ---------------------------------------------------------------- poll-site class of a lost context error
 
